@@ -55,8 +55,10 @@ def khatrirao(*matrices: np.ndarray, reverse: bool = False) -> np.ndarray:
     if not all(matrix.shape[1] == ncolFirst for matrix in matrices):
         assert False, "All matrices must have the same number of columns."
 
-    # Computation
+    # Computation (a single matrix is its own product: return a copy, not a view)
     P = matrices[0]
+    if len(matrices) == 1:
+        return np.reshape(P.copy(), newshape=(-1, ncolFirst), order="F")
     for i in matrices[1:]:
         P = np.reshape(i, newshape=(-1, 1, ncolFirst)) * np.reshape(
             P, newshape=(1, -1, ncolFirst), order="F"
